@@ -104,7 +104,7 @@ pub fn classify(t: &str, q: &QOpt) -> Expect {
         "\"plain\"" => return Expect::Value(MV::Str("plain".into())),
         "\"a\\u00e9\"" => return if q.string == Syn::Elisp { Expect::Value(MV::Str("aé".into())) } else { Expect::Unspecified },
         ".5" | "-.5" | "+.5" => return Expect::Unspecified,
-        "-1+" | "+1x" | "-1a" | "+5." => return Expect::NotNumber,
+        "-1+" | "+1x" | "-1a" | "+5." | "-1:" | "+5:" | ".5:" | "#x1F:" => return Expect::NotNumber,
         // radix prefixes: the digits have to be digits of that radix
         "#x10" => return Expect::Value(MV::U(16)),
         "#xFf" => return Expect::Value(MV::U(255)),
@@ -148,7 +148,9 @@ pub fn classify(t: &str, q: &QOpt) -> Expect {
         }
         return if q.digits {
             if t.ends_with(':') && q.kw_postfix {
-                Expect::Unspecified
+                // a name and a colon: whatever it is (the statement leaves the
+                // name open), the whole token is not a numeric literal
+                Expect::NotNumber
             } else {
                 sym(t)
             }
@@ -557,6 +559,8 @@ pub const CORPUS: &[&str] = &[
     "7", "12", "1.5", "1e3", "1.5e-3", "007", "1e21", "18446744073709551615", "1+", "1-", "1/2", "1.5.6", "0x10", "12ab", "1e", "1e+", "9x", "1.", "3rd", "1_000",
     "#b11111111111111111111111111111111111111111111111111111111111111111111112", "#o7777777777777777777777777777778", "#xffffffffffffffffffffg",
     "#x10", "#xFf", "#x-ff", "#b101", "#o17", "#d10", "#b2", "#b102", "#b12", "#o8", "#o18", "#o79", "#xg", "#x1g", "#xfg", "#d1a", "#da", "#b", "#x-", "#b1.0", "#o1e2",
+    // complete numeric literals with a colon at either end
+    "1:", "12:", "1.5:", "1e3:", "007:", "-1:", "+5:", ".5:", "#x1F:", ":1", ":1.5", ":-1", ":1e3", "#:1", "#:1.5", "1::", ":1:",
     "+5", "-5", "+1.5", "-0", "+", "-", "+a", "-a", "--", "->x", "...", ".a", "..", "-1+", "+1x", "-1a", "+5.", ".5", "-.5", "+.5",
     // strings
     "\"a\\x41;b\"", "\"a\\101b\"", "\"plain\"", "\"a\\u00e9\"",
